@@ -135,21 +135,7 @@ class Asm:
         return self
 
     def assemble(self):
-        pos, labels = 0, {}
-        for k, v in self.items:
-            if k == "l":
-                labels[v] = pos
-            elif k == "b":
-                pos += len(v)
-            else:
-                pos += 3
-        out = b""
-        for k, v in self.items:
-            if k == "b":
-                out += v
-            elif k == "r":
-                out += push_n(labels.get(v, 0xffff), 2)
-        return out
+        return assemble_ext(self)
 
 
 def random_program(rng, bw, n_ops=30, hostile=0.1, loops=True):
@@ -336,8 +322,10 @@ def error_programs(rng, bw, n):
                 pre(); a.push(rng.randrange(0, 6)).op(jop)
             elif kind == 1:    # out of range
                 pre(); a.push(rng.choice([0x1000, 0xffff, 2 ** 31, 2 ** 32 - 1])).op(jop)
-            elif kind == 2:    # >= 2^32 with valid low bits
-                a.label("V%d" % p); pre(); a.raw(b"\x64\x01\x00\x00\x00\x00").op(jop)
+            elif kind == 2:    # >= 2^32 / 2^64 / 2^128 with valid low bits (the label just placed is at a small offset)
+                a.label("V%d" % p); pre()
+                hi = rng.choice([2 ** 32, 2 ** 64, 2 ** 64, 2 ** 128, 2 ** 255])
+                a.items.append(("rhi", ("V%d" % p, hi))); a.op(jop)
             elif kind == 3:    # inside push data: a 0x5b byte that is an immediate
                 a.raw(b"\x61\x5b\x5b").op("POP"); pre(); a.push(len(a.assemble()) - 3).op(jop)
             elif kind == 4:    # symbolic target
@@ -513,8 +501,8 @@ def c08_programs(rng, bw, n):
                 cond(); a.push(rng.randrange(0, 4)).op(jop)
             elif kind == 5:    # out of range
                 cond(); a.push(rng.choice([0x7fff, 0xffff, 2 ** 31])).op(jop)
-            elif kind == 6:    # >= 2^32 whose low 32 bits name a valid JUMPDEST (label of next block)
-                cond(); a.items.append(("r64", lab)); a.op(jop)
+            elif kind == 6:    # >= 2^32 (also >= 2^64, >= 2^128, 2^255) whose low bits name a valid JUMPDEST (label of next block)
+                cond(); a.items.append(("rhi", (lab, rng.choice([2 ** 32, 2 ** 32, 2 ** 64, 3 * 2 ** 64, 2 ** 128, 2 ** 255])))); a.op(jop)
             elif kind == 7:    # computed-constant target
                 cond(); a.items.append(("rsplit", lab)); a.op(jop)
             elif kind == 8:    # halting instruction followed by dead code
@@ -541,11 +529,17 @@ def assemble_ext(a):
     """Asm.assemble plus two extra reference kinds: r64 = PUSH5 (2^32 + offset); rsplit = PUSH2 x PUSH2 y ADD with x+y = offset"""
     pos, labels = 0, {}
     size = {"b": None, "r": 3, "r64": 6, "rsplit": 7}
+
+    def hi_len(hi):
+        return 1 + (hi.bit_length() + 7) // 8
+
     for k, v in a.items:
         if k == "l":
             labels[v] = pos
         elif k == "b":
             pos += len(v)
+        elif k == "rhi":
+            pos += hi_len(v[1])
         else:
             pos += size[k]
     out = b""
@@ -556,6 +550,8 @@ def assemble_ext(a):
             out += push_n(labels.get(v, 0xffff), 2)
         elif k == "r64":
             out += push_n(2 ** 32 + labels.get(v, 0xffff), 5)
+        elif k == "rhi":
+            out += push_n(v[1] + labels.get(v[0], 0xffff), hi_len(v[1]) - 1)
         elif k == "rsplit":
             t = labels.get(v, 0xffff)
             x = t // 2
